@@ -87,6 +87,13 @@ def call(pool_mode, faults=None, phase_fault=None, kind="ok", limit=6):
         if kind == "no_donor":
             kw.update(label_switching_cost=1e9, min_cluster_size=Tp)
             return fast_ticc.ticc_labels(s.copy(), **kw)
+        if kind == "no_donor_edge":
+            # everything collapses into one cluster of exactly 2m-1 points: one short of what a donor needs
+            n = Tp if Tp % 2 == 1 else Tp - 1
+            # (two clusters: a single refill is asked of it)
+            kw.update(label_switching_cost=1e9, min_cluster_size=(n + 1) // 2, num_clusters=2)
+            TRACER.init_labels = [(i // 4) % 2 for i in range(n)]
+            return fast_ticc.ticc_labels(s[:n + W - 1].copy(), **kw)
         if kind == "no_donor_partial":
             # one donor that can serve two of the three needy clusters, not the third
             kw.update(label_switching_cost=1e9, min_cluster_size=5, num_clusters=4)
@@ -217,7 +224,7 @@ def expected(task, msg_text):
     (pool_mode, fault_kind, where, exc_name, call_kind) = task
     if fault_kind in ("task", "phase"):
         return type(EXC[exc_name]("x")), ([] if exc_name.endswith("()") else [msg_text])
-    if call_kind in ("no_donor", "no_donor_partial"):
+    if call_kind in ("no_donor", "no_donor_partial", "no_donor_edge"):
         return RuntimeError, ["donor"]
     if call_kind in ("list_to_single", "tuple_to_single", "iterator_to_single", "deque_to_single"):
         return TypeError, ["ticc_joint_labels"]
@@ -270,7 +277,7 @@ def plan(ctx):
         for ph in ("bic", "ch", "cll"):
             tasks.append((mode, "phase", (0, ph), "InjectedFault", "ok"))
     for mode in ("default", "mpK"):
-        for kind in ("no_donor", "no_donor_partial", "list_to_single", "tuple_to_single", "iterator_to_single",
+        for kind in ("no_donor", "no_donor_partial", "no_donor_edge", "list_to_single", "tuple_to_single", "iterator_to_single",
                      "deque_to_single", "array_to_joint"):
             tasks.append((mode, "call", None, None, kind))
     return tasks
@@ -309,7 +316,7 @@ def run(ctx):
         "fault points: optimisation task (r,k) for every r<3, k<3 x pool mode {default Pool(1), multiprocessing on "
         "with P=K, P=2, virtual} raising ValueError (LinAlgError and a harness-defined class at (1,1); three argument-less exceptions per pool mode; eight more built-in classes "
         "incl. AttributeError/TypeError/KeyError at one point each for Pool(1) and virtual; thorough: 3 more points); phase fault at every (round<3, phase in repop/stats/opt/relabel) and in the three metric "
-        "functions x {default, P=K}; no-donor (no donor at all; one donor that can serve only two of three needy clusters), joint-style input (list, tuple, iterator, deque of arrays) to ticc_labels, array to ticc_joint_labels x {default, P=K}. "
+        "functions x {default, P=K}; no-donor (no donor at all; one donor that can serve only two of three needy clusters; one cluster of exactly 2m-1 points), joint-style input (list, tuple, iterator, deque of arrays) to ticc_labels, array to ticc_joint_labels x {default, P=K}. "
         "Each scenario in its own fresh process with a 60 s watchdog: expected exception type and message, no "
         "result, no live children while the exception is referenced, clean follow-up call bitwise equal to the "
         "clean reference. non-trivial = scenarios whose fault point was reached")
